@@ -5,6 +5,7 @@
 //! One binary per family of properties lives under src/bin/ (cargo discovers them).
 
 pub mod c16;
+pub mod c17;
 pub mod datum;
 pub mod generate;
 pub mod jsontree;
